@@ -112,7 +112,7 @@ def shapes_catalog(tier):
         for opn, op in (("+", SH.union), ("-", SH.cut), ("&", SH.inter)):
             out.append(("(%s[t]%s%s[s])" % (ka, opn, kb),
                         (lambda env, ka=ka, kb=kb, op=op: op(SH.PRIMS[ka](env, tag="A", dep="t"), SH.PRIMS[kb](env, tag="B", dep="s"))),
-                        dict(fam="bool", kind=opn, sample=not quick)))
+                        dict(fam="bool", kind=opn, sample=(not quick and opn == "+" and kb == "Circle"))))
     for opn, op in (("+", SH.union), ("-", SH.cut), ("&", SH.inter)):
         out.append(("(Interval[t]%sInterval[s])" % opn,
                     (lambda env, op=op: op(SH.interval(env, tag="A", dep="t"), SH.interval(env, tag="B", dep="s"))),
@@ -697,9 +697,20 @@ def cases(tier):
             cs.append(agree_case(name, mk, info, fix, "volume", k))
             if not info.get("point") or True:
                 cs.append(agree_case(name, mk, info, fix, "bbox", k))
+            if info.get("fam") in ("bool", "nested"):
+                # rejection loops (oracle route, see agree_case): one subset, one row; membership of samples of
+                # Boolean combinations as such is C01's business
+                if info.get("sample") and fix == subsets[0]:
+                    c = agree_case(name, mk, info, fix, "random", 1, n=2)
+                    c.budget_s, c.timeout_ms, c.max_paths, c.max_forks_per_site = 150, 20000, 24, 4
+                    cs.append(c)
+                continue
             if info.get("sample") and (not quick or fix == subsets[0]):
-                cs.append(agree_case(name, mk, info, fix, "random", 1 if quick else k, n=2))
-                if info.get("fam") != "product" and (not quick or info.get("fam") in ("prim1", "prim2")):
+                # all variables fixed: D(**v) takes no parameter rows any more, so one row on the other side
+                ks = 1 if (quick or len(fix) == len(pv)) else k
+                cs.append(agree_case(name, mk, info, fix, "random", ks, n=2))
+                poly = any(p in name for p in ("Parallelogram", "Triangle"))  # grid of polygons: int(sqrt(side ratio)) forks
+                if info.get("fam") in ("prim1", "prim2", "transform") and not poly:
                     cs.append(agree_case(name, mk, info, fix, "grid", 1, n=2))
         # value forms: (1,)-tensor and python scalar
         if info.get("fam") in ("prim1", "prim2") and (not quick or name in ("Circle[t]", "Interval[lb(s),ub(t)]")):
